@@ -161,3 +161,13 @@ impl ClientProxy {
         self.send_request_no_response("workspace/diagnostic/refresh", ());
     }
 }
+
+#[cfg(feature = "verif-hooks")]
+impl ClientProxy {
+    /// Verification only: lets a harness give this proxy's lock a name (`label` is called
+    /// right before the lock is touched once, uncontended).
+    pub fn verif_touch_locks(&self, label: &mut dyn FnMut(&str)) {
+        label("response_manager");
+        drop(self.response_manager.try_lock());
+    }
+}
